@@ -106,3 +106,51 @@ def parseLine (line : String) : Option (String × List Json) :=
   | _ => none
 
 end Py.Wire
+
+/-! ## explicit encoders / decoders (composed by the generated dispatcher; no type-class search,
+because Python `dict` and `list of pairs` share one Lean type) -/
+namespace Py.Wire
+abbrev Enc (α : Type) := α → Json
+abbrev Dec (α : Type) := Json → Option α
+
+def encStr : Enc Str := strToWire
+def decStr : Dec Str := strOfJson
+def encInt : Enc Int := fun n => Json.num (Lean.JsonNumber.fromInt n)
+def decInt : Dec Int := intOfJson
+def encBool : Enc Bool := Json.bool
+def decBool : Dec Bool := fun j => match j with | .bool b => some b | _ => none
+def encUnit : Enc Unit := fun _ => Json.null
+def decUnit : Dec Unit := fun j => match j with | .null => some () | _ => none
+def encOpt {α} (e : Enc α) : Enc (Option α) := fun o => match o with | none => Json.null | some a => e a
+def decOpt {α} (d : Dec α) : Dec (Option α) := fun j => match j with | .null => some none | j => (d j).map some
+def encList {α} (e : Enc α) : Enc (List α) := fun l => Json.arr (l.toArray.map e)
+def decList {α} (d : Dec α) : Dec (List α) := fun j => match j with | .arr a => a.toList.mapM d | _ => none
+def encDict {κ ν} (ek : Enc κ) (ev : Enc ν) : Enc (List (κ × ν)) :=
+  fun l => Json.mkObj [("d", Json.arr (l.toArray.map (fun p => Json.arr #[ek p.1, ev p.2])))]
+def decDict {κ ν} (dk : Dec κ) (dv : Dec ν) : Dec (List (κ × ν)) := fun j =>
+  match j.getObjVal? "d" with
+  | .ok (.arr a) => a.toList.mapM (fun p => match p with
+      | .arr #[k, v] => do let k ← dk k; let v ← dv v; pure (k, v)
+      | _ => none)
+  | _ => none
+def tup (items : List Json) : Json := Json.mkObj [("t", Json.arr items.toArray)]
+def untup (j : Json) : Option (List Json) :=
+  match j.getObjVal? "t" with
+  | .ok (.arr a) => some a.toList
+  | _ => none
+def encT2 {α β} (a : Enc α) (b : Enc β) : Enc (α × β) := fun p => tup [a p.1, b p.2]
+def decT2 {α β} (a : Dec α) (b : Dec β) : Dec (α × β) := fun j =>
+  match untup j with | some [x, y] => do pure ((← a x), (← b y)) | _ => none
+def encT3 {α β γ} (a : Enc α) (b : Enc β) (c : Enc γ) : Enc (α × β × γ) := fun p => tup [a p.1, b p.2.1, c p.2.2]
+def decT3 {α β γ} (a : Dec α) (b : Dec β) (c : Dec γ) : Dec (α × β × γ) := fun j =>
+  match untup j with | some [x, y, z] => do pure ((← a x), (← b y), (← c z)) | _ => none
+def encT4 {α β γ δ} (a : Enc α) (b : Enc β) (c : Enc γ) (d : Enc δ) : Enc (α × β × γ × δ) :=
+  fun p => tup [a p.1, b p.2.1, c p.2.2.1, d p.2.2.2]
+def decT4 {α β γ δ} (a : Dec α) (b : Dec β) (c : Dec γ) (d : Dec δ) : Dec (α × β × γ × δ) := fun j =>
+  match untup j with | some [x, y, z, w] => do pure ((← a x), (← b y), (← c z), (← d w)) | _ => none
+
+def respondWith {α} (e : Enc α) (r : R α) : String :=
+  match r with
+  | .ok v => "ok " ++ (e v).compress
+  | .error x => "err " ++ excName x
+end Py.Wire
